@@ -68,7 +68,18 @@ func jobs(r *ev.Run) []job {
 	mk := func(name string, sets [][]int, prefix []proch.Event, depth int) job {
 		return job{Name: name, C: proch.Config{Name: name, Sets: sets, OwnKey: 0, Msgs: msgs()}, Prefix: prefix, Depth: depth, Ticks: tickAlphabet, Weight: depth}
 	}
+	// store fault: every instance has a store of its own and the alphabet has the event "the store fails from
+	// now on" (every lookup returns the store's error): a failing lookup is not "a quorum VAA is stored"
+	fault := func(name string, prefix []proch.Event) job {
+		j := mk(name, n3, prefix, d-1)
+		j.C.PrivateDB = true
+		j.Ticks = []int{30, 301, 3660}
+		return j
+	}
 	return []job{
+		fault("store-fails/observed-unsubmitted", []proch.Event{set, msg0, lb}),
+		fault("store-fails/late", []proch.Event{set, msg0, lb, {Kind: "in", M: 0, InVar: 0, InSet: 0}}),
+		fault("store-fails/settled", []proch.Event{set, msg0, lb, {Kind: "tick", DtSec: 31}}),
 		mk("observed-unsubmitted", n3, []proch.Event{set, msg0, lb}, d),
 		mk("observed+unobserved", n3, []proch.Event{set, msg0, lb, {Kind: "obs", G: 1, D: 2}}, d),
 		mk("unobserved-only", n3, []proch.Event{set, {Kind: "obs", G: 1, D: 2}}, d),
@@ -103,6 +114,9 @@ func menu(j job) proch.Enabled {
 			evs = append(evs, proch.Event{Kind: "lb", LB: i})
 		}
 		evs = append(evs, proch.Event{Kind: "obs", G: 1, D: 0}, proch.Event{Kind: "obs", G: 2, D: 2}, proch.Event{Kind: "in", M: 0, InVar: 0, InSet: 0})
+		if j.C.PrivateDB && !m.DBClosed {
+			evs = append(evs, proch.Event{Kind: "dbclose"})
+		}
 		return evs
 	}
 }
